@@ -565,6 +565,9 @@ class Parser:
                 return ('sizeof', ' '.join(txt))
             name = self.qualified_name()
             node = ('id', name)
+            if self.at('{') and name not in ('do', 'else', 'try'):
+                # braced temporary:  vtbl_entry{a, b, c}   range{first, last}
+                return ('construct', name, self.parse_initlist()[1])
             # template-id: only for names the caller declared to be templates
             while self.at('<') and name.split('::')[-1] in self.template_names:
                 targs = self.template_args()
